@@ -499,9 +499,23 @@ def psd_case(arg):
 
     from pharmpy.model import Model
 
-    n, t, cls = case["n"], case["t"], case["cls"]
-    A = _mat(n, t)
-    record = {"part": "psd", "n": n, "t": t, "cls": cls, "variant": variant, "how": how, "outcome": None, "case": case}
+    n, cls = case["n"], case["cls"]
+    unit = 1.0  # size of the entries: tolerances of the auxiliary checks are relative to it
+    if "a" in case:
+        # near-singular family of PSD.tla (mode ns): [[a*a, a*b], [a*b, b*b]] * 1e-2, last entry -/+ 1e-7
+        a, b = case["a"], case["b"]
+        A = [[a * a * 1e-2, a * b * 1e-2], [a * b * 1e-2, b * b * 1e-2 + (-1e-7 if case["dir"] == "minus" else 1e-7)]]
+        t = [A[0][0], A[1][0], A[1][1]]
+        unit = 1e-2
+    else:
+        t = case["t"]
+        A = _mat(n, t)
+        if case.get("scale"):
+            # the same matrix in small units (definiteness does not depend on a positive factor)
+            unit = 10.0 ** (-case["scale"])
+            A = [[v * unit for v in row] for row in A]
+    record = {"part": "psd", "n": n, "t": t, "cls": cls, "variant": variant, "how": how, "scale": case.get("scale", 0),
+              "family": "near_singular" if "a" in case else "integer", "outcome": None, "case": case}
     rvs = _psd_ctx(n, variant)
     try:
         params = _params(n, A, variant)
@@ -531,20 +545,23 @@ def psd_case(arg):
     if cls != "indef":
         if dev == 0:
             return ("ok", record, None, aux)
-        record["outcome"] = "valid_altered_tiny" if dev <= 1e-9 else "valid_altered"
+        record["outcome"] = "valid_altered_tiny" if dev <= 1e-9 * unit else "valid_altered"
         return ("violation", record, f"positive semidefinite initial estimates {A} were altered (max change {dev:.3g}) to {B}", aux)
     # not PSD: must have been replaced by a PSD matrix that the repair leaves alone
     if dev == 0:
         record["outcome"] = "invalid_kept"
-        return ("violation", record, f"initial estimates {A} are not positive semidefinite but were kept", aux)
+        return ("violation", record, f"initial estimates {A} are not positive semidefinite but were kept (validate_parameters says {rvs.validate_parameters(inits)})", aux)
+    if not rvs.validate_parameters(inits):
+        record["outcome"] = "repaired_rejected_by_validate"
+        return ("violation", record, f"the initial estimates {B} of the model are rejected by its own validate_parameters", aux)
     aux += 1
     ev = float(np.linalg.eigvalsh(np.array(B)).min())
-    if not ev >= -1e-10:
+    if not ev >= -1e-10 * unit:
         record["outcome"] = "repaired_not_psd"
         return ("violation", record, f"repaired initial estimates {B} are not positive semidefinite (min eigenvalue {ev:.3g})", aux)
     for nm, ag in (("replace", again), ("create", again2)):
         d2 = max(abs(float(ag[_pname(i, j)]) - B[i][j]) for i in range(n) for j in range(n))
-        if d2 > 1e-9:
+        if d2 > 1e-9 * unit:
             record["outcome"] = "repair_not_fixed_point"
             return ("violation", record, f"repair is not idempotent: Model.{nm} with the repaired estimates changes them again by {d2:.3g}", aux)
     return ("ok", record, None, aux)
@@ -780,7 +797,10 @@ def main(tier: str, seed: int) -> int:
             if not shs or {tuple(c["classes"]) for c in ths} < {("interval",), ("neglb",), ("unbounded",)} or {c["share"] for c in shs} != {"own", "block"}:
                 raise core.MachineryError(f"PSD.tla: {len(shs)} shared-variance cases, {len(ths)} theta class sequences (vacuous)")
             rng.shuffle(shs)
-            _run_psd(v, tier, rng, mats, sds, shs, ths)
+            nss = [c for tag, c in res.prints if tag == "NS"]
+            if {c["cls"] for c in nss} != {"indef", "pd"}:
+                raise core.MachineryError(f"PSD.tla: near-singular family has classes {set(c['cls'] for c in nss)}")
+            _run_psd(v, tier, rng, mats, sds, shs, ths, nss)
 
             # ---- histories
             kinds = set()
@@ -869,7 +889,7 @@ def _run_hist(v, tier, rng, cases, label, budget=None):
     return kinds
 
 
-def _run_psd(v, tier, rng, mats, sds, shs, ths):
+def _run_psd(v, tier, rng, mats, sds, shs, ths, nss):
     small = [m for m in mats if m["n"] < 3]
     big = [m for m in mats if m["n"] == 3]
     valid3 = [m for m in big if m["cls"] != "indef"]
@@ -885,6 +905,19 @@ def _run_psd(v, tier, rng, mats, sds, shs, ths):
                     work.append((m, variant, how))
     for m in indef3:
         work.append((m, rng.choice(("plain", "embedded", "ruv")), rng.choice(("create", "replace", "replace_rvs"))))
+    # scaled families: every class in small units (1e-5 ... 1e-9), and the near-singular family of PSD.tla
+    hows = ("create", "replace", "replace_rvs")
+    pool = [m for m in mats if m["n"] > 1 and m["cls"] == "indef"]
+    rng.shuffle(pool)
+    nscaled = len(pool) if tier == "thorough" else 1500
+    for i, m in enumerate(pool[:nscaled]):
+        work.append((dict(m, scale=(5, 7, 8, 9)[i % 4]), rng.choice(("plain", "embedded", "ruv")), hows[i % 3]))
+    for i, m in enumerate([m for m in mats if m["n"] > 1 and m["cls"] != "indef"]):
+        work.append((dict(m, scale=(5, 7, 8, 9)[i % 4]), ("plain", "embedded", "ruv")[i % 3], hows[(i // 3) % 3]))
+    for m in nss:
+        for variant in ("plain", "embedded"):
+            for how in hows:
+                work.append((m, variant, how))
     for n in (1, 2, 3):
         for variant in ("plain", "embedded", "ruv", "ucp"):
             _psd_ctx(n, variant)
@@ -921,6 +954,7 @@ def _run_psd(v, tier, rng, mats, sds, shs, ths):
     v.add_coverage(
         psd_matrices_emitted=len(mats),
         psd_models_checked=len(work),
+        psd_near_singular_matrices=len(nss),
         psd_valid_matrices=len([m for m in mats if m["cls"] != "indef"]),
         sdcorr_cases=len(sdw),
         sdcorr_shared_variance_cases=len(shw),
